@@ -180,7 +180,7 @@ pub fn expand_templates(
         })
         .collect();
     let mut expansions_left = MAX_TEMPLATE_EXPANSIONS;
-    expand(&mut toplevels, &templates, lsp_hints, &mut expansions_left)?;
+    expand(&mut toplevels, &templates, lsp_hints, &mut expansions_left, 0)?;
 
     toplevels.into_iter().try_fold(vec![], |mut tls, tl| {
         tls.push(match &tl {
@@ -208,11 +208,17 @@ struct Replacement {
 /// this many expansions.
 const MAX_TEMPLATE_EXPANSIONS: usize = 10_000;
 
+/// An expansion can also wrap its own reproduction in a list, e.g.
+/// `(deftemplate a (x) (($x a $x))) (t! a t!)`, so that every expansion nests one level deeper.
+/// The parser recurses once per level, so the depth has to stay far below what the stack allows.
+const MAX_TEMPLATE_EXPANSION_DEPTH: usize = 100;
+
 fn expand(
     exprs: &mut Vec<SExpr>,
     templates: &[Template],
     _lsp_hints: &mut LspHints,
     expansions_left: &mut usize,
+    depth: usize,
 ) -> Result<()> {
     let mut replacements: Vec<Replacement> = vec![];
     loop {
@@ -224,7 +230,7 @@ fn expand(
                         l.t.first().and_then(|expr| expr.atom(None)),
                         Some("template-expand") | Some("t!")
                     ) {
-                        expand(&mut l.t, templates, _lsp_hints, expansions_left)?;
+                        expand(&mut l.t, templates, _lsp_hints, expansions_left, depth + 1)?;
                         continue;
                     }
 
@@ -235,6 +241,12 @@ fn expand(
                         );
                     }
                     *expansions_left -= 1;
+                    if depth > MAX_TEMPLATE_EXPANSION_DEPTH {
+                        bail_span!(
+                            l,
+                            "Template expansion is nested too deeply. Is this template expanding into itself?"
+                        );
+                    }
 
                     // found expand, now parse
                     let template =
